@@ -117,12 +117,21 @@ def main(prop, spec, argv, seed, chk):
         with ThreadPoolExecutor(max_workers=(1 if tier == "--replay" else spec[tier]["parallel"])) as ex:
             res = list(ex.map(run_tlc, jobs))
         viols, errors = [], []
+        opens, _fixed = chk.load_known()
+        known = {o["key"]: o for o in opens if o.get("prop") == prop}
+        known_hits = {}
         for j in res:
             if j["violated"]:
+                kind = "".join(ch for ch in j["assign"] if not ch.isdigit())
+                key = "%s:%s:%s" % (j["model"], j["violated"], kind)
+                j["key"] = key
+                if tier != "--replay" and key in known:
+                    known_hits[key] = known_hits.get(key, 0) + 1
+                    continue
                 path = os.path.join(outdir, "C20-%s-mv%s-%s-%s.json" % (j["model"], j["consts"]["MaxView"], j["assign"], j["violated"]))
                 slim = {k: v for k, v in j.items() if k not in ("out", "dir", "sample")}
                 json.dump({"property": prop, "invariant": j["violated"], "job": slim, "tlc_output_tail": j["out"][-12000:]}, open(path, "w"), indent=1)
-                print("violation detail: model %s (%s, MaxView=%s): invariant %s violated in a generated behaviour" % (j["model"], j["assign"], j["consts"]["MaxView"], j["violated"]))
+                print("violation detail: [%s] model %s (%s, MaxView=%s): invariant %s violated in a generated behaviour" % (key, j["model"], j["assign"], j["consts"]["MaxView"], j["violated"]))
                 if path not in viols:
                     viols.append(path)
             elif j["error"]:
@@ -133,6 +142,8 @@ def main(prop, spec, argv, seed, chk):
                 print("VIOLATION property=%s replay=%s" % (prop, os.path.abspath(argv[1])))
                 return 1
             return 2 if errors else 0
+        for key in sorted(known_hits):
+            print(known[key]["line"])
         traces = sum(j["traces"] for j in res)
         states = sum(j["states"] for j in res)
         nt = sum(j.get("nontrivial", 0) for j in res)
@@ -151,6 +162,7 @@ def main(prop, spec, argv, seed, chk):
                 "evaluations": traces, "distinct_nontrivial": nt, "rule": spec["rule"],
                 "samples": samples or ["(no trace dumped)"], "states": states, "per_model": per_model,
                 "configurations": len([j for j in res if not j.get("dump")]),
+                "known_finding_hits": known_hits,
                 "tlc": "TLC2 random simulation (-simulate), depth %d" % spec[tier]["depth"],
             },
             "assumptions": spec["assumptions"], "wall_s": round(time.time() - t0, 1), "violations": len(viols),
